@@ -7,7 +7,13 @@ cd "$(dirname "$0")"
 find props -type d -name gen2 | while read -r d; do
   o="$(dirname "$d")/gen1"
   rm -rf "$o"; mkdir -p "$o"
+  # files named *_v2.go exist only for the v2 generation; *_root.go.in are their root-generation counterparts
+  for f in "$d"/*_root.go.in; do
+    [ -e "$f" ] || continue
+    sed -e 's#^package gen2#package gen1#' "$f" > "$o/$(basename "${f%.in}")"
+  done
   for f in "$d"/*.go; do
+    case "$f" in *_v2.go) continue;; esac
     sed -e 's#github.com/PapaCharlie/go-restli/v2/restlidata/generated/com/linkedin/restli/common#github.com/PapaCharlie/go-restli/restlidata#g' \
         -e 's#github.com/PapaCharlie/go-restli/v2/#github.com/PapaCharlie/go-restli/#g' \
         -e 's#^package gen2#package gen1#' \
